@@ -86,12 +86,12 @@ func (s *scriptedConn) SetReadDeadline(time.Time) error  { return nil }
 func (s *scriptedConn) SetWriteDeadline(time.Time) error { return nil }
 
 type c07Case struct {
-	Lens     []int `json:"lens"`               // message lengths
-	Cuts     []int `json:"cuts,omitempty"`     // extra segment boundaries (absolute ciphertext offsets)
-	Coalesce []int `json:"coalesce,omitempty"` // message indices i whose segment is merged with message i+1's
-	Timeouts []int `json:"timeouts,omitempty"` // segment indices before which a read timeout is injected
-	Bufs     []int `json:"bufs"`               // caller buffer sizes, cycled
-	Writes   bool  `json:"writes,omitempty"`   // the application writes (a response / an event) on the connection after every caller Read
+	Lens     []int `json:"lens"`                      // message lengths
+	Cuts     []int `json:"cuts,omitempty"`            // extra segment boundaries (absolute ciphertext offsets)
+	Coalesce []int `json:"coalesce,omitempty"`        // message indices i whose segment is merged with message i+1's
+	Timeouts []int `json:"timeouts,omitempty"`        // segment indices before which a read timeout is injected
+	Bufs     []int `json:"bufs"`                      // caller buffer sizes, cycled
+	Writes   bool  `json:"writes,omitempty"`          // the application writes (a response / an event) on the connection after every caller Read
 	TwoConns bool  `json:"two_connections,omitempty"` // the scenario of c07TwoConns (lens = {closes, buffer})
 }
 
